@@ -154,6 +154,7 @@ class C18(engine.Property):
         "construction-failed-in-init",
         "derived-metaclass-class-cleared-while-others-live",
         "factory-new-front-class-constructed",
+        "global-clear-spelled-with-explicit-None",
         "singleton-class-defined-in-mid-history",
         "class-defined-while-others-live",
     ]
@@ -187,7 +188,8 @@ class C18(engine.Property):
         r = rng.random()
         classes = cfg["classes"] + st.defined
         if r < cfg["p_clear_all"]:
-            return {"op": "clear_all"}
+            # "all" is the default and also what an explicit None means
+            return {"op": "clear_all", "spell": rng.choice(["bare", "bare", "none", "kw-none"])}
         if r < cfg["p_clear_all"] + cfg["p_clear"]:
             return {"op": "clear", "cls": rng.choice(classes)}
         args = [rng.choice(ARG_POOL) for _ in range(rng.randint(0, 2))]
@@ -352,7 +354,14 @@ class C18(engine.Property):
             if sum(1 for c in list(st.model) if st.model[c]) >= 2:
                 s["probe:global-clear-with-several-live"] += 1
             try:
-                singleton.clear_true_singleton()
+                if op.get("spell") == "none":
+                    s["probe:global-clear-spelled-with-explicit-None"] += 1
+                    singleton.clear_true_singleton(None)
+                elif op.get("spell") == "kw-none":
+                    s["probe:global-clear-spelled-with-explicit-None"] += 1
+                    singleton.clear_true_singleton(cls=None)
+                else:
+                    singleton.clear_true_singleton()
             except Exception as exc:  # pylint: disable=broad-except
                 return {"exc": type(exc).__name__}, engine.viol(
                     "C18/clear-raised", {"op": op, "exc": type(exc).__name__}
